@@ -107,10 +107,11 @@ def stepH (j : Json) : Except String Json := do
   let some rep := stepOfKind kind | throw s!"unknown kind {kind}"
   let rows := before.length
   let cols := (before.headD []).length
-  let exact : Option (Grid Nat) :=
-    if kind == "mc_cnn" then some (mcCnnGrid ops off before)
-    else if kind == "sgm" then some (sgmGrid ops before)
-    else if kind == "filter" then some before
+  let exact : Option (Grid Nat) := if kind == "filter" then some before else none
+  -- the interpolations: the decisions that depend on the flags only are fixed by the model
+  let allowed : Option (Array (Array (List Nat))) :=
+    if kind == "mc_cnn" then some ((mcCnnAllowed ops off before).map List.toArray).toArray
+    else if kind == "sgm" then some ((sgmAllowed ops before).map List.toArray).toArray
     else none
   let mut notIn : Array Json := #[]
   let mut failing : Array Json := #[]
@@ -118,7 +119,10 @@ def stepH (j : Json) : Except String Json := do
     for (f, c) in row.zipIdx do
       let a := look2 after 0 r c
       let border := decide (off > 0) && FlagSteps.inBorder rows cols off r c
-      if !(outcomes ops border kind f).contains a then
+      let okSet := match allowed with
+        | some al => look2 al [] r c
+        | none => outcomes ops border kind f
+      if !okSet.contains a then
         notIn := notIn.push (Json.arr #[natToJson r, natToJson c, natToJson f, natToJson a])
       for cl in failingStepClauses border rep f a do
         failing := failing.push (Json.arr #[Json.str cl, natToJson r, natToJson c, natToJson f, natToJson a])
@@ -137,8 +141,8 @@ def stepOfJson (j : Json) : Except String Step := do
     else if d == "mismatch" then return .crossCheck .mismatch
     else if d == "occlusion" then return .crossCheck .occlusion
     else throw s!"bad cc decision {d}"
-  | Json.arr #[Json.str "mc_cnn", b] => return .interpMcCnn (← boolOfJson b)
-  | Json.arr #[Json.str "sgm", b] => return .interpSgm (← boolOfJson b)
+  | Json.arr #[Json.str "mc_cnn", b, c] => return .interpMcCnn (← boolOfJson b) (← boolOfJson c)
+  | Json.arr #[Json.str "sgm", a, b, c] => return .interpSgm (← boolOfJson a) (← boolOfJson b) (← boolOfJson c)
   | _ => throw s!"bad step {j.compress}"
 
 /-- a per-pixel run (used to replay the counterexamples of Properties/C04.lean) -/
